@@ -183,7 +183,7 @@ def C05(V, tier):
     prop_windows.C05_windows(V, tier)
     # carry nothing over: stateful operators over several iterations (folds, reorder; joins, zip, merge)
     op_replay(V, workdir("C05o"), tier, "C05", ["fold", "kfold", "reorder"])
-    binary_replay(V, workdir("C05b"), tier, "C05", JOIN_VARIANTS[:4] + [("zip", {}), ("merge", {})])
+    binary_replay(V, workdir("C05b"), tier, "C05", JOIN_VARIANTS + [("zip", {}), ("merge", {})])
     # loops with side inputs: the boundary behind a BinaryStart with a cached side (start_out hook)
     side = gen.loop_programs(rng, 10 if tier == "quick" else 120, nested=False, side=True)
     loops = gen.loop_programs(rng, 6 if tier == "quick" else 80)
@@ -586,7 +586,24 @@ def binary_replay(V, wd, tier, prop, ops):
     V.add_model(r, "Interleave")
     V.coverage["arrival_orders_enumerated"] = len(orders)
     by_case = {c["id"]: c for c in cases}
-    cap = 1200 if q else 20000
+    # generated two-iteration cases (Interleave.tla GenCases): sampled by simulation (quick) / all of them (thorough)
+    if q:
+        r2 = tlc_check(f"{SPEC}/comp/Interleave.tla", f"{SPEC}/gen/Interleave.cfg", wd, "interleave_gen", workers=4,
+                       coverage=False, simulate="num=150", extra=["-depth", "40", "-seed", str(seed() + 5)], timeout=900)
+    else:
+        r2 = tlc_check(f"{SPEC}/comp/Interleave.tla", f"{SPEC}/gen/Interleave.cfg", wd, "interleave_gen", workers=8,
+                       coverage=False, timeout=1800)
+    seen = set()
+    gen_orders = []
+    for o in r2["replays"]:
+        key = json.dumps(o, sort_keys=True)
+        if key not in seen:
+            seen.add(key)
+            gen_orders.append(o)
+            by_case[o["id"]] = {"id": o["id"], "left": o["left"], "right": o["right"]}
+    V.coverage["generated_two_iteration_orders"] = len(gen_orders)
+    orders = orders + gen_orders
+    cap = 2400 if q else 40000
     jobs = []
     meta = {}
     todo = [(o, op, var) for o in orders for (op, var) in ops]
